@@ -273,7 +273,7 @@ func (g *rgen) stmt(d int, inFunc bool) []string {
 	}
 }
 
-func randCount(c *core.Ctx) int { return c.Pick(40000, 1500000) }
+func randCount(c *core.Ctx) int { return c.Pick(40000, 1000000) }
 
 func randGen(c *core.Ctx, idx int) gcase {
 	r := c.Rng("rand", idx)
